@@ -37,14 +37,14 @@ RULE = ('state = complete __dict__ of one real WMM object (hashed, arrays by byt
         'menu applied to a state by replaying history + operation on a fresh real object; the oracle is evaluated on every '
         'transition and on every initial state. Level-synchronous BFS with global deduplication, run to the FIXPOINT: '
         'every history of any length over the menu is covered whose runs of consecutive date=None queries are not longer '
-        'than the deviation bound K. A case (= key) is the representative history plus the operation; it is non-trivial '
+        'than the deviation bound K (see ASSUMPTIONS). A case (= key) is the representative history plus the operation; it is non-trivial '
         'when the operation is a query (constructor or magnetic_field), which all keys counted in distinct_nontrivial are')
 ASSUMPTIONS = [
     'tolerance 1e-8 (nT for X, Y, Z, H, F; degrees for I, D, GV). A reused and a fresh object execute the same floating '
     'point operations on the same inputs, so the history/constructor comparisons are bit-exact on a correct tree (worst '
     'observed 0.0) and ENU vs NED is an exact swap (0.0); H, F, I, D are recomputed with math.hypot/atan2 instead of '
-    'numpy.linalg.norm/arctan2: worst observed 1.5e-11; longitude +180 vs -180 differs through sin(+-pi) = +-1.2e-16: '
-    'worst observed 1.5e-11 nT. The tolerance is >= 600 x every observed worst; the smallest history effect there is '
+    'numpy.linalg.norm/arctan2: worst observed 2.9e-11; longitude +180 vs -180 differs through sin(+-pi) = +-1.2e-16: '
+    'worst observed 1.5e-11 nT. The tolerance is >= 340 x every observed worst; the smallest history effect there is '
     '(a stale coefficient table of the neighbouring epoch, a tenth of a year of secular variation) is > 0.4 nT, a '
     'double Schmidt scaling 1e4 nT, sign/index slips in the derived elements >= 1e2 nT or degrees',
     'clock: the name `datetime` inside ahrs.utils.wmm is replaced by a namespace whose `date` is a subclass of '
@@ -60,11 +60,14 @@ ASSUMPTIONS = [
     'the numbers come from a fresh real object per (decimal date, lat, lon, h, frame) (memoised; constructed with an '
     'explicit date and the default place, then asked once with an explicit decimal date) - correctness of that path is '
     'C14; the deviation of the fresh NED answers from the independent evaluator mc/ref/wmm.py is tracked (information)',
-    'deviation bound K: histories with more than K consecutive date=None queries are not explored (K = 2 quick, 3 '
+    'deviation bound K: histories with more than K consecutive date=None queries are not explored (K = 1 quick, 3 '
     'thorough; reads between them do not break a run; any explicit date, omitted date or reset_coefficients ends it). '
     'On the unchanged tree every date=None query on already used coefficients reaches a NEW state (the Schmidt scaling '
-    'is applied again), so without K the state space is infinite; on a correct tree K is immaterial. Violating states '
-    'ARE expanded (nothing is pruned)',
+    'is applied again), so without K the state space is infinite; on a tree where date=None reloads the tables K is '
+    'immaterial (the repaired scratch tree closes at 410 states in the quick tier). Violating states ARE expanded '
+    '(nothing is pruned). Hard caps (reported in caps_hit, never hit on the unchanged tree): 50 000 states, '
+    '60 000 / 600 000 transitions (quick / thorough; the unchanged tree needs 32 458 / 399 878) - they only bound the '
+    'run time on a mutant whose state space explodes',
     'the ENU/NED relation and the +180/-180 relation are judged against fresh answers and therefore only on transitions '
     'whose elements already equal the fresh object\'s (otherwise the same corrupted vector would be reported three times)',
     'H, F, I, D are recomputed from the X, Y, Z the object reports in its own frame (H = |(X,Y)|, F = |(H,Z)|, '
@@ -74,8 +77,12 @@ ASSUMPTIONS = [
     'object\'s own D',
     'a constructor that leaves the elements None is reported once, at the constructor; reading those None values '
     'afterwards is not reported again',
-    'quick tier: 6 fixed boundary places + 1 seed-selected place, 8 date forms, 2 resets, 2 reads, 96 constructors, K = 2; '
-    'thorough: 10 places, 10 date forms, 3 resets, 2 reads, 108 constructors, K = 3; both run to the fixpoint',
+    'quick tier: 96 constructors (8 dates x 6 places x 2 frames); menu of 52 operations = 7 places (6 fixed boundary '
+    'places + 1 selected by VERIF_SEED from a menu of 5) x 7 date forms (2019.999, 2022.5, 2025.0, two calendar days, '
+    'None, omitted) + 1 reset + 2 reads; K = 1. thorough: 108 constructors (9 dates), 105 operations = 10 places x 10 '
+    'date forms + 3 resets + 2 reads; K = 3; identical for every seed. Both tiers run to the fixpoint (no depth bound)',
+    'debugging aid: with C15_DEBUG=1 in the environment every failing (site, class tag) pair is additionally counted as '
+    'a coverage class "dbg ..."; it changes no verdict',
 ]
 REQUIRED_CLASSES = ['ctor:NED', 'ctor:ENU', 'ctor:lat=0', 'ctor:lon=0', 'ctor:place=default', 'ctor:date=None',
                     'ctor:date=day', 'ctor:date=decimal', 'ctor:seam-1e-3',
